@@ -117,7 +117,7 @@ func VerifC02_Slash() { vSlash("C02") }
 func vSlash(p string) {
 	e, _, _ := vSetup(4)
 	pre := e.snap()
-	power := zz.Int64("power", 0, 1<<40)
+	power := zz.Int64("power", 0, 1<<60)
 	frac := vFraction("frac")
 	err := e.K.slash(e.Ctx, e.Addrs[0], e.Ctx.BlockHeight(), power, frac)
 	_ = err // the statement fixes the effect of a slash, not its error value
@@ -148,7 +148,7 @@ func VerifC07_DoubleSign() {
 	e, _, _ := vSetup(4)
 	pre := e.snap()
 	age := zz.Int64("age_seconds", 0, 400) // MaxEvidenceAge = 120 s
-	power := zz.Int64("power", 0, 1<<40)
+	power := zz.Int64("power", 0, 1<<60)
 	target := zz.Choice("target", 3) // 0: validator 0, 1: unknown address, 2: a validator that was force-unstaked before
 	addr := e.Addrs[0]
 	switch target {
@@ -210,7 +210,7 @@ func VerifC07_TwoSlashes() {
 		f1 = []sdk.Dec{d(10000000000000000), d(333333333333333333), d(1000000000000000000)}[zz.Choice("f1", 3)]
 		f2 = []sdk.Dec{d(50000000000000000), d(333333333333333333), d(1000000000000000000)}[zz.Choice("f2", 3)]
 	}
-	p1 := zz.Int64("p1", 0, 1<<40)
+	p1 := zz.Int64("p1", 0, 1<<60)
 	v, _ := e.Val(0)
 	err1 := e.K.slash(e.Ctx, e.Addrs[0], e.Ctx.BlockHeight(), p1, f1)
 	mid := e.snap()
